@@ -243,3 +243,14 @@ _c03_base2 = contracts
 
 def contracts():
     return _c03_base2() + [compare_iterator_contract(), compare_mapping_contract()]
+
+
+# the flush delivers queued events: WHICH event reaches a watcher (last queued per (name, what))
+_c03_base3 = contracts
+
+
+def contracts():
+    from contracts import c04 as _c04
+    f = _c04.flush_contract()
+    f.prop = "C03"
+    return _c03_base3() + [f]
